@@ -117,6 +117,11 @@ class FIXSRC(cccc.Stream):
         with self.createRecord() as record:
             for var in self.fc.keys():
                 self.fc[var] = record.rwInt(self.fc[var])
+        if "r" in self._fileMode:
+            # the file control record gives the dimensions of the data that follow
+            self.fixSrc = np.zeros(
+                [self.fc[var] for var in ("ninti", "nintj", "nintk", "ngroup")]
+            )
 
     def _rw3DRecord(self, g, z):
         """
